@@ -1,0 +1,17 @@
+//go:build verif
+
+package action
+
+// Contracts checked by /verif (govc). Comment-only file: it adds no code.
+
+//@ ghost func keepPolicy(m releaseutil.Manifest) bool = m.Head.Metadata != nil && m.Head.Metadata.Annotations != nil && has(m.Head.Metadata.Annotations, kube.ResourcePolicyAnno) && lower(trimspace(m.Head.Metadata.Annotations[kube.ResourcePolicyAnno])) == kube.KeepPolicy
+
+//@ func filterManifestsToKeep
+//@   props C02
+//@   requires forall i int :: 0 <= i && i < len(manifests) ==> manifests[i].Head != nil
+//@   ensures [partition] len(keep) + len(remaining) == len(manifests)
+//@   ensures [keep-only-keep] forall i int :: 0 <= i && i < len(keep) ==> keepPolicy(keep[i])
+//@   ensures [remaining-not-keep] forall i int :: 0 <= i && i < len(remaining) ==> !keepPolicy(remaining[i])
+//@   loop 1 invariant [count] len(keep) + len(remaining) == #iter
+//@   loop 1 invariant [keep] forall i int :: 0 <= i && i < len(keep) ==> keepPolicy(keep[i])
+//@   loop 1 invariant [rem] forall i int :: 0 <= i && i < len(remaining) ==> !keepPolicy(remaining[i])
